@@ -466,6 +466,17 @@ for e in ('c_alias', 'c_lr', 'c_positions', 'c_arity15'):
     ob(name='c09.%s' % e[2:], kind='FC+', props=['C09'], unit='c09', harness='h_c09.c', entry=e, unwind=17 if e == 'c_arity15' else 6, timeout=900, object_bits=12,
        bound='none for the values (symbolic ints); the scenario (one mock function of arity 3 / 1 / 0, the clauses listed in the harness) is fixed by the driver function')
 
+# unit mf_glue: mock_func itself as a MODULAR obligation: find(), the free report_mismatch() and the matcher's virtual run_actions() /
+# return_value() are contract-only stubs (their own obligations: find_is.*, world.text.*, run_actions.decision_logic.contract, clause_is.*)
+UNITS['mf_glue'] = {
+    'opaque': [' get_lock$', r'^_ZN11trompeloeil4findIFiiEE', r'^_ZN11trompeloeil15report_mismatchIFiiEE'], 'dyn_types': [],
+    'roots': {'MOCK_FUNC': '9mock_funcILb0EFiiEJRiEE', 'EXPS': r'rec:^expectations<false,int\(int\)>$', 'CMB': r'rec:^call_matcher_base<int\(int\)>$', 'CML': r'rec:^call_matcher_list<int\(int\)>$'},
+    'stub_aliases': {'FIND_STUB': r'^f__ZN11trompeloeil4findIFiiEE', 'REPORT_MISMATCH_STUB': r'^f__ZN11trompeloeil15report_mismatchIFiiEE',
+                     'VS_CMB_RUN_ACTIONS': r'^vs_.*call_matcher_baseIFiiEE11run_actions', 'VS_CMB_RETURN_VALUE': r'^vs_.*call_matcher_baseIFiiEE12return_value', 'VS_TRACE': r'^vs_.*6tracer5trace'},
+}
+ob(name='mock_func.glue.contract', kind='FC+', props=['C01', 'C02', 'C08', 'C14', 'C15', 'C17'], unit='mf_glue', harness='h_mf_glue.c', entry='g_glue', unwind=4, defines={'VP_TOK_CAP': 12},
+   bound='none: expectation lists of any length (find() answers by contract: null or any live matcher); every behaviour of the two virtual calls (return / std exception / other exception)')
+
 # thorough-only: mock_func with expectations in two sequences (concrete K), larger text shapes
 ob(name='world.call.mock_func.two_sequences', kind='BL', props=['C01', 'C02', 'C03', 'C05', 'C07', 'C08', 'C14', 'C15', 'C16', 'C17'], unit='world_ii', harness='h_world.c', entry='w_call', tier='thorough',
    variants=world_variants(2, 2, True), unwind=10, timeout=2400, bound=_BOUND % 'N=2 expectations, expectation 0 in both sequences, expectation 1 in 0..2', min_reach=0)
